@@ -142,7 +142,10 @@ type avsH struct {
 	acc1      map[string][]byte // op|taskAddr|id -> signature accepted in phase one
 	acc2      map[string][]byte // op|taskAddr|id -> response accepted in phase two
 	chal      map[string]bool
-	resps     map[string][]byte // response the harness intends / used for (op,task)
+	resps     map[string][]byte // the bytes the operator signed in phase one for (op,task)
+	contents  map[string]avsContent // what those bytes encode (dom_avs_encodings.go); zero for unparseable bytes
+	verified  map[string]bool   // cache of the record monitor's BLS verifications
+	legacy    bool              // a record was written straight into the store (directedLegacyNilSig)
 	directed  string            // non-empty inside a directed scenario: tag carried by violation sigs
 	halted    bool
 	nonce     uint64 // undelegation nonces (dom_avs_optin.go)
@@ -581,9 +584,11 @@ func (h *avsH) doSubmit(s avsSub) string {
 		respID = strconv.FormatUint(r.TaskID, 10)
 	}
 	blsOk := 0
+	pkParses := false
 	pkBytes, hasPk := h.hasKey(s.op)
 	if hasPk {
 		if pk, e := blst.PublicKeyFromBytes(pkBytes); e == nil {
+			pkParses = true
 			if ok, e2 := blst.VerifySignature(s.sig, digest, pk); e2 == nil && ok {
 				blsOk = 1
 			}
@@ -601,6 +606,7 @@ func (h *avsH) doSubmit(s avsSub) string {
 	if acc, ok := h.accOf[s.op]; ok {
 		isOp = h.c.App.OperatorKeeper.IsOperator(h.c.Ctx, acc)
 	}
+	stored := h.c.App.AVSManagerKeeper.IsExistTaskResultInfo(h.c.Ctx, s.op, s.taskAddr, s.id)
 	info := &avstypes.TaskResultInfo{OperatorAddress: s.op, TaskResponseHash: s.hash, TaskResponse: s.resp, BlsSignature: s.sig,
 		TaskContractAddress: s.taskAddr, TaskId: s.id, Stage: s.stage}
 	viaMsg := h.rng.Chance(1, 3) // the MsgSubmitTaskResult surface (msg_server.go) instead of the bare keeper call
@@ -623,10 +629,25 @@ func (h *avsH) doSubmit(s avsSub) string {
 	h.op(fmt.Sprintf("avs.submit %s %s %s %d %s %s %s %s %s %d %s", s.from, s.op, wStr(s.taskAddr), s.id, wStr(s.stage), wBytes(s.sig), wBytes(s.resp),
 		wStr(s.hash), respID, blsOk, digest.String()), code+"|"+rec)
 	h.env.Outcome("submit." + s.stage + "." + code)
+	k := rkey(s.op, s.taskAddr, s.id)
+	if s.stage == avstypes.TwoPhaseCommitTwo && s.resp != nil {
+		// which byte-level class of response reached which decision (dom_avs_encodings.go)
+		cls := avsEncName(s.resp)
+		h.env.Outcome("submit.2." + cls + "." + code)
+		if _, did1 := h.acc1[k]; did1 && cls == "non-canonical" && (code == "ok" || code == "ErrSigVerifyError") {
+			h.env.DistinctKey(fmt.Sprintf("reveal-%x-%d-%s", crypto.Keccak256(s.resp)[:6], blsOk, code))
+		}
+	}
 	if code != "ok" {
+		pre := avsSubPre{isOp: isOp, hasPk: hasPk, pkParses: pkParses, taskOk: terr == nil, curOk: curOk, stored: stored,
+			cur: cur, respID: respID, blsOk: blsOk}
+		if terr == nil {
+			pre.end1 = int64(task.StartingEpoch) + int64(task.TaskResponsePeriod)
+			pre.end2 = pre.end1 + int64(task.TaskStatisticalPeriod)
+		}
+		h.monSubmitRefused(s, pre, code)
 		return code
 	}
-	k := rkey(s.op, s.taskAddr, s.id)
 	bad := func(sig, what string) { h.violate("C20.submit", sig, what+" ["+k+" stage "+s.stage+"]") }
 	h.env.Eval("C20.submit")
 	if s.from != s.op || !isOp {
@@ -695,12 +716,30 @@ func abiDigest(resp []byte) []byte {
 	return crypto.Keccak256(packed)
 }
 
+// abiPackPanics: types.GetTaskResponseDigestEncodeByAbi (the same go-ethereum packer on the same value) panics
+func abiPackPanics(resp []byte) (p bool) {
+	r, err := avstypes.UnmarshalTaskResponse(resp)
+	if err != nil {
+		return false
+	}
+	defer func() {
+		if recover() != nil {
+			p = true
+		}
+	}()
+	_, _ = avstypes.Args.Pack(&r)
+	return false
+}
+
 func (h *avsH) doChallenge(ch avsChal) string {
 	k := rkey(ch.op, ch.taskAddr, ch.id)
 	abiOk := 0
 	if r, ok := h.acc2[k]; ok {
 		if d := abiDigest(r); d != nil && hex.EncodeToString(d) == hex.EncodeToString(ch.respHash) {
 			abiOk = 1
+		}
+		if abiPackPanics(r) { // Args.Pack dereferences the nil NumberSum of an absent / null answer
+			abiOk = 2
 		}
 	}
 	callerOk := 0
@@ -717,6 +756,9 @@ func (h *avsH) doChallenge(ch avsChal) string {
 		OperatorAddress: h.accOf[ch.op], TaskResponseHash: ch.respHash, CallerAddress: ch.caller}
 	err := h.c.CachedDo(func(ctx sdk.Context) error { return h.c.App.AVSManagerKeeper.RaiseAndResolveChallenge(ctx, p) })
 	code := avsCode(err)
+	if code == "panic" {
+		h.env.Note("challenge." + strings.SplitN(err.Error(), " goroutine", 2)[0])
+	}
 	exists := h.c.App.AVSManagerKeeper.IsExistTaskChallengedInfo(h.c.Ctx, ch.op, ch.taskAddr, ch.id)
 	ex := "0"
 	if exists {
@@ -897,6 +939,7 @@ func (h *avsH) dumpOp() {
 		return
 	}
 	h.op("avs.dump", h.dump())
+	h.monResults()
 }
 
 // ---------- history set-up
@@ -956,6 +999,9 @@ func (h *avsH) start(env *Env, seed uint64, nOps int, rng *RNG) {
 	h.acc2 = map[string][]byte{}
 	h.chal = map[string]bool{}
 	h.resps = map[string][]byte{}
+	h.contents = map[string]avsContent{}
+	h.verified = map[string]bool{}
+	h.legacy = false
 	h.directed = ""
 	h.halted = false
 	h.op("avs.reset", "ok")
@@ -1109,16 +1155,10 @@ func (h *avsH) genSubmit() {
 	}
 	id := t.info.TaskId
 	k := rkey(op, t.addr, id)
+	// the bytes the operator signs (drawn once per operator and task: content and encoding, dom_avs_encodings.go)
 	resp, ok := h.resps[k]
 	if !ok {
-		switch r.Intn(10) {
-		case 0:
-			resp = respJSON(id+1, 100) // response for another task id (phase two must reject)
-		case 1:
-			resp = []byte("not json")
-		default:
-			resp = respJSON(id, int64(100+r.Intn(3)))
-		}
+		h.contents[k], resp = h.genResponse(id)
 		h.resps[k] = resp
 	}
 	sig := h.signResp(op, resp)
@@ -1132,8 +1172,10 @@ func (h *avsH) genSubmit() {
 	}
 	s := avsSub{from: op, op: op, taskAddr: t.addr, id: id, stage: stage, sig: sig}
 	if stage == "2" {
-		s.resp = resp
-		s.hash = crypto.Keccak256Hash(resp).String()
+		// mostly the signed bytes, otherwise another encoding of the same content (must be refused: the
+		// signature does not verify over what is submitted)
+		s.resp = h.reveal(h.contents[k], resp)
+		s.hash = crypto.Keccak256Hash(s.resp).String()
 	}
 	switch r.Intn(28) { // malformed stream
 	case 0:
@@ -1311,7 +1353,9 @@ func (h *avsH) sweepHistory(resp, stat, chal uint64) {
 	for e := 0; e < total && !h.halted; e++ {
 		for oi, o := range h.opAddrs {
 			k := rkey(o, ta, id)
-			respB := respJSON(id, int64(100+oi))
+			// every operator answers in its own encoding of its own content (dom_avs_encodings.go)
+			enc := (oi + int(resp) + 2*int(stat) + 3*int(chal) + int(h.env.Report.Seed)) % len(avsEncodings)
+			respB := encResp(id, strconv.Itoa(100+oi), enc)
 			sig := h.signResp(o, respB)
 			// operator oi commits in epoch offset (oi mod (resp+2)) so that some are early, some on the
 			// last admissible epoch and some too late
@@ -1322,6 +1366,10 @@ func (h *avsH) sweepHistory(resp, stat, chal uint64) {
 			}
 			if _, did := h.acc1[k]; did {
 				if _, did2 := h.acc2[k]; !did2 || r.Chance(1, 3) {
+					if r.Chance(1, 3) { // the same content in other bytes: must be refused at every epoch offset
+						alt := encResp(id, strconv.Itoa(100+oi), enc+1+r.Intn(len(avsEncodings)-1))
+						h.doSubmit(avsSub{from: o, op: o, taskAddr: ta, id: id, stage: "2", sig: sig, resp: alt, hash: crypto.Keccak256Hash(alt).String()})
+					}
 					h.doSubmit(avsSub{from: o, op: o, taskAddr: ta, id: id, stage: "2", sig: sig, resp: respB, hash: crypto.Keccak256Hash(respB).String()})
 				}
 			}
@@ -1374,6 +1422,7 @@ func (h *avsH) directedLegacyNilSig() {
 	st := prefix.NewStore(h.c.Ctx.KVStore(h.c.App.GetKey(avstypes.StoreKey)), avstypes.KeyPrefixTaskResult)
 	st.Set([]byte(o+"/"+ta+"/1"), h.c.App.AppCodec().MustMarshal(info))
 	h.env.Note("F-11b.legacy-result-injected")
+	h.legacy = true
 	// the injected result is not part of the model's state: blocks only, no dump
 	for i := 0; i < 6 && !h.halted; i++ {
 		h.doBlock(61 * time.Second)
@@ -1446,6 +1495,9 @@ func domAvs(env *Env) error {
 	rng := NewRNG(env.Report.Seed)
 	env.Report.Domain = "avs"
 	h := &avsH{}
+	if err := avsEncodingsSelfTest(); err != nil {
+		return fmt.Errorf("avs: response encodings: %v", err)
+	}
 	finish := func(kind string, hi int) {
 		env.Report.Histories++
 		acc := len(h.acc1) + len(h.acc2) + len(h.chal)
@@ -1458,7 +1510,7 @@ func domAvs(env *Env) error {
 		}
 	}
 	if directed == 1 {
-		for i, f := range []func(){h.directedEmptySig, h.directedLegacyNilSig, h.directedChallengeHash, h.directedOutsider, h.directedMinWrap, h.directedFractionBelowMin} {
+		for i, f := range []func(){h.directedEmptySig, h.directedLegacyNilSig, h.directedChallengeHash, h.directedOutsider, h.directedMinWrap, h.directedFractionBelowMin, h.directedEncodings} {
 			h.start(env, env.Report.Seed*1000+900+uint64(i), 2, rng)
 			f()
 			finish("directed", i)
